@@ -24,7 +24,7 @@ sys.path.insert(0, os.path.join(ROOT, 'selftest'))
 from run import scratch_copy, run_tests  # noqa: E402
 
 
-def one(sid, extra_checks, tier):
+def one(sid, extra_checks, tier, seed='0'):
     d = os.path.join(ROOT, 'seeded', sid)
     meta = json.load(open(os.path.join(d, 'meta.json')))
     prop = meta['property']
@@ -48,7 +48,7 @@ def one(sid, extra_checks, tier):
         res['repo_tests'] = line
         res['checks'] = {}
         for c in [prop] + [c for c in extra_checks if c != prop]:
-            env = dict(os.environ, PANE_REPO=scratch, VERIF_SEED='0')
+            env = dict(os.environ, PANE_REPO=scratch, VERIF_SEED=str(seed))
             r = subprocess.run([os.path.join(ROOT, 'check'), c, '--tier', tier, '--no-evidence'], env=env, capture_output=True, text=True)
             lines = r.stdout.strip().splitlines()
             refs = [ln.strip() for ln in lines if ln.strip().startswith('refutations[')]
@@ -69,16 +69,17 @@ def main():
     ap.add_argument('--tier', default='quick')
     ap.add_argument('--jobs', type=int, default=3)
     ap.add_argument('--no-write', action='store_true')
+    ap.add_argument('--seed', default='0', help='VERIF_SEED for the checks (results are only written for seed 0)')
     a = ap.parse_args()
     ids = a.ids or sorted(x for x in os.listdir(os.path.join(ROOT, 'seeded')) if os.path.isdir(os.path.join(ROOT, 'seeded', x)))
     extra = [c for c in a.checks.split(',') if c]
     results = []
     with concurrent.futures.ThreadPoolExecutor(max_workers=a.jobs) as ex:
-        for res in ex.map(lambda s: one(s, extra, a.tier), ids):
+        for res in ex.map(lambda s: one(s, extra, a.tier, a.seed), ids):
             results.append(res)
             print(f"{res['id']:8s} valid={res.get('valid')} tests={res.get('repo_tests_pass')} demo={res.get('demo_on_unchanged')}/{res.get('demo_on_changed')} "
                   f"caught_by={res.get('caught_by')} {res.get('error', '')}", flush=True)
-    if a.no_write:
+    if a.no_write or a.seed != '0':
         return
     path = os.path.join(ROOT, 'selftest', 'RESULTS.json')
     old = {}
